@@ -1,9 +1,14 @@
 from obl.vset_common import get_obls
 from obl.c01_memtable import memtable_obls
+from obl.dbimpl_common import write_obls
 
 # b: ldb_version_get over a symbolic multi-level version satisfying the C14 layout invariant
 OBLIGATIONS = memtable_obls("a") + (get_obls("b", 0, ((2, 0, 0, 1, 2, 1), (1, 1, 0, 1, 2, 1), (0, 2, 0, 1, 2, 1), (0, 1, 1, 1, 2, 2), (1, 1, 1, 1, 3, 1))) +
                get_obls("b", 0, ((2, 1, 1, 1, 2, 1), (1, 2, 1, 2, 6, 2), (3, 0, 0, 1, 2, 1), (2, 1, 0, 1, 2, 2)), tier="thorough"))
+
+# w: an acknowledged write is in the log and in the memtable (otherwise a later read cannot
+# return it): every member of a commit group that is told OK has its updates in the group record
+OBLIGATIONS += write_obls("w", quick=((0, 1, 0, -1),), thorough=((0, 2, 0, 1), (1, 1, 0, -1)))
 
 META = {
     "level": "model_checking",
